@@ -12,6 +12,8 @@ package http
 //@   modifies s.GateKeepers, entries(s.GateKeepers)
 //@   before call GateKeeperFactory assert source-is-a-directory-name: arg0 == getSourceName(r) && arg0 != "" && arg0 != "." && arg0 != ".."
 //@   before mapupdate GateKeepers assert registered-under-its-source: arg1 == getSourceName(r) && arg2 == lastret(GateKeeperFactory, 0)
+//@   before call GateKeeperFactory assert a-registered-gatekeeper-is-never-replaced: !has(s.GateKeepers, getSourceName(r))
+//@   on return assert registered-gatekeeper-is-the-answer: old(has(s.GateKeepers, getSourceName(r))) && getSourceName(r) != "" && getSourceName(r) != "." && getSourceName(r) != ".." ==> result == old(s.GateKeepers[getSourceName(r)]) && !called(GateKeeperFactory)
 //@   on return assert answers-the-source-s-gatekeeper: result != nil ==> getSourceName(r) != "" && getSourceName(r) != "." && getSourceName(r) != ".."
 //@ func (*Server).handleError trusted
 //@   modifies nothing
@@ -135,4 +137,12 @@ package http
 //@   before call sts.Payload.EncodeHeader assert compressor-belongs-to-this-request: (gz != nil ==> called(compress/gzip.NewWriterLevel) && gz == lastret(compress/gzip.NewWriterLevel, 0) && lastret(compress/gzip.NewWriterLevel, 1) == nil) && (gz == nil ==> h.Compression == gzip.NoCompression)
 //@   on return assert failure-count-comes-from-the-receiver: err != nil ==> n == 0 || (called((*BandwidthLoggingClient).Do) && lastret((*BandwidthLoggingClient).Do, 1) == nil && resp.StatusCode == 206 && called(strconv.Atoi) && n == lastret(strconv.Atoi, 0))
 //@   on return assert success-needs-200: err == nil ==> called((*BandwidthLoggingClient).Do) && lastret((*BandwidthLoggingClient).Do, 1) == nil && resp.StatusCode == 200 && called(sts.Payload.GetParts) && n == len(lastret(sts.Payload.GetParts, 0))
+//@   modifies everything
+
+// ---------------------------------------------------------------- internal commands (C20)
+
+// the minimum age of a prune request is given in seconds
+//@ func (*Server).routeInternal
+//@   track store minAge
+//@   before store minAge assert minimum-age-is-in-seconds: called(strconv.Atoi) && arg0 == minAgeSecs * 1000000000 && (lastret(strconv.Atoi, 1) == nil ==> minAgeSecs == lastret(strconv.Atoi, 0)) && (lastret(strconv.Atoi, 1) != nil ==> minAgeSecs == 0)
 //@   modifies everything
